@@ -95,3 +95,23 @@ def RangeInclusive.contains {α} [Flt α] (r : RangeInclusive α) (x : α) : Boo
 
 /-- `Vec::push` as a pure function of the vector -/
 def Vec.push {τ} (v : List τ) (x : τ) : List τ := v ++ [x]
+
+/-- `?` on `Result`: `Try::branch` / `FromResidual::from_residual` -/
+inductive ControlFlow (β γ : Type) where
+  | Continue (c : γ)
+  | Break (b : β)
+
+def Try.branch {ε τ : Type} : Except ε τ → ControlFlow ε τ
+  | .ok v => .Continue v
+  | .error e => .Break e
+
+def Try.from_residual {ε τ : Type} (e : ε) : Except ε τ := .error e
+
+def Option.okOr {ε τ : Type} : Option τ → ε → Except ε τ
+  | some v, _ => .ok v
+  | none, e => .error e
+
+def Except.andThen {ε σ τ : Type} (r : Except ε σ) (f : σ → Except ε τ) : Except ε τ :=
+  match r with
+  | .ok v => f v
+  | .error e => .error e
